@@ -30,6 +30,7 @@ type Obligation struct {
 	PathID int
 	Pos    string
 	Canary bool // an obligation expected to FAIL (vacuity guard)
+	ExtraDecls []string
 }
 
 type FuncCtx struct {
